@@ -4,7 +4,8 @@ CONSTANTS Acct <- AcctCU
  BaseSet <- BaseAll
  MaxSteps = 24
  MaxSnap = 3
+ WithSeal = TRUE
  FreeVals = TRUE
  Dv <- NoDev
-INVARIANTS UndoMatchesSaved NoPanic RevsOK DiscardAllIsBase
+INVARIANTS UndoMatchesSaved NoPanic RevsOK DiscardAllIsBase RedoEqualsExec
 CHECK_DEADLOCK FALSE
